@@ -10,6 +10,7 @@ import (
 	rhp4 "go.sia.tech/core/rhp/v4"
 	"reflect"
 	"regexp"
+	"sort"
 	"time"
 	"verif/sim"
 
@@ -22,7 +23,12 @@ import (
 // fault is the alteration of one character (or the loss / gain of one) inside
 // an identifier.
 
-func (w *World) apiOn() bool { return w.cfg.Profile == "C20" || w.tape.Choose(10) == 0 }
+func (w *World) apiOn() bool {
+	if w.cfg.Profile == "C10" {
+		return w.tape.Choose(3) == 0 // (transactions posted with members missing are C10's)
+	}
+	return w.cfg.Profile == "C20" || w.tape.Choose(10) == 0
+}
 
 // apiRoundTrip sends v through its JSON form into fresh; same reports whether
 // the received value equals the sent one.
@@ -147,6 +153,7 @@ func (w *World) apiTxn(pt *PoolTxn) {
 		js := w.apiRoundTrip(pt.Kind+" transaction "+short(pt.ID), *pt.V1, &got, func() bool { return bytes.Equal(encV1(got), encV1(*pt.V1)) && got.ID() == pt.ID })
 		if js != nil {
 			w.apiCorrupt(pt.Kind+" transaction", js, func() any { return new(types.Transaction) }, func(g any) bool { return bytes.Equal(encV1(*g.(*types.Transaction)), encV1(*pt.V1)) })
+			w.apiHollow(pt.Kind+" transaction", js, true)
 		}
 		for _, in := range pt.V1.SiacoinInputs {
 			w.apiText("unlock conditions address", in.UnlockConditions.UnlockHash())
@@ -169,6 +176,7 @@ func (w *World) apiTxn(pt *PoolTxn) {
 	js := w.apiRoundTrip(pt.Kind+" transaction "+short(pt.ID), *pt.V2, &got, func() bool { return bytes.Equal(encAny(got), encAny(*pt.V2)) && got.ID() == pt.ID })
 	if js != nil {
 		w.apiCorrupt(pt.Kind+" transaction", js, func() any { return new(types.V2Transaction) }, func(g any) bool { return bytes.Equal(encAny(*g.(*types.V2Transaction)), encAny(*pt.V2)) })
+		w.apiHollow(pt.Kind+" transaction", js, false)
 	}
 	for _, in := range pt.V2.SiacoinInputs {
 		p := in.SatisfiedPolicy.Policy
@@ -401,4 +409,104 @@ func (w *World) apiTextReuse() {
 		return
 	}
 	w.stats.Inc("probe.api.text-into-used-variable")
+}
+
+// apiHollow posts a transaction as a careless or hostile API client would:
+// its own JSON with one member left out or set to null. Whatever still parses
+// is a transaction like any other to the rest of the library: judging it ends
+// in a verdict.
+func (w *World) apiHollow(what string, js []byte, v1 bool) {
+	if len(w.nodes) == 0 {
+		return
+	}
+	var tree any
+	dec := json.NewDecoder(bytes.NewReader(js))
+	dec.UseNumber()
+	if dec.Decode(&tree) != nil {
+		return
+	}
+	// every (container, key) in a fixed order
+	type site struct {
+		m map[string]any
+		k string
+	}
+	var sites []site
+	var walk func(v any)
+	walk = func(v any) {
+		switch x := v.(type) {
+		case map[string]any:
+			keys := make([]string, 0, len(x))
+			for k := range x {
+				keys = append(keys, k)
+			}
+			sort.Strings(keys)
+			for _, k := range keys {
+				sites = append(sites, site{x, k})
+				walk(x[k])
+			}
+		case []any:
+			for _, e := range x {
+				walk(e)
+			}
+		}
+	}
+	walk(tree)
+	if len(sites) == 0 {
+		return
+	}
+	st := sites[w.tape.Choose(len(sites))]
+	how := "left out"
+	if w.tape.Chance(1, 2) {
+		st.m[st.k] = nil
+		how = "set to null"
+	} else {
+		delete(st.m, st.k)
+	}
+	hollow, err := json.Marshal(tree)
+	if err != nil {
+		return
+	}
+	if v1 {
+		var txn types.Transaction
+		if p := guard(func() { err = json.Unmarshal(hollow, &txn) }); p != "" {
+			w.violate("C10", "json-unmarshal-panic", fmt.Sprintf("%s with member %q %s: json.Unmarshal panicked: %s", what, st.k, how, p))
+			return
+		}
+		w.stats.Inc("probe.api.hollow")
+		if err != nil {
+			return
+		}
+		w.stats.Inc("probe.api.hollow-parsed")
+		s := w.nodes[0].tip
+		if p := guard(func() {
+			_ = txn.ID()
+			_ = s.TransactionWeight(txn)
+			_ = s.WholeSigHash(txn, types.Hash256{}, 0, 0, nil)
+			_ = consensus.ValidateTransaction(consensus.NewMidState(s), txn, consensus.V1TransactionSupplement{})
+		}); p != "" {
+			w.violate("C10", "validate-panic", fmt.Sprintf("%s with member %q %s parses without error; weighing, hashing or validating it panicked: %s", what, st.k, how, p))
+		}
+		return
+	}
+	var txn types.V2Transaction
+	if p := guard(func() { err = json.Unmarshal(hollow, &txn) }); p != "" {
+		w.violate("C10", "json-unmarshal-panic", fmt.Sprintf("%s with member %q %s: json.Unmarshal panicked: %s", what, st.k, how, p))
+		return
+	}
+	w.stats.Inc("probe.api.hollow")
+	if err != nil {
+		return
+	}
+	w.stats.Inc("probe.api.hollow-parsed")
+	s := w.nodes[0].tip
+	if p := guard(func() {
+		ms := consensus.NewMidState(s)
+		_ = consensus.ValidateV2Transaction(ms, txn)
+	}); p != "" {
+		w.violate("C10", "validate-panic", fmt.Sprintf("%s with member %q %s parses without error, and ValidateV2Transaction then panicked on it: %s", what, st.k, how, p))
+		return
+	}
+	if p := guard(func() { _ = txn.ID(); _ = s.V2TransactionWeight(txn); _ = s.InputSigHash(txn) }); p != "" {
+		w.violate("C10", "hash-parsed-transaction-panic", fmt.Sprintf("%s with member %q %s parses without error; taking its ID, weight or signature hash panicked: %s", what, st.k, how, p))
+	}
 }
